@@ -367,7 +367,7 @@ class StmtMixin:
 
     def _fix_unknown_box(self, p, cls, fname, v):
         """`self.data = []`: an empty literal of unknown element type takes the declared field type."""
-        if isinstance(v, VRef) and v.cls in ("list[?]", "dict[?]", "set[?]"):
+        if isinstance(v, VRef) and v.cls in ("list[?]", "dict[?]", "set[?]", "counter[?]"):
             _, ty = self.heap_key(cls, fname)
             if isinstance(ty, TRef) and ty.cls and ty.cls in self.classes and self.classes[ty.cls].box:
                 return self.retag_box(p, v, ty.cls)
